@@ -39,9 +39,23 @@ func checkC06(run *Run, res *Result) {
 	if run.Cfg.Prop == "C15" {
 		// the start-up scenario (checkpoints left by an earlier, well-behaved session; flushed / re-created vBuckets):
 		// only "what the client asks the server for is a valid, untorn resume point" is judged here
+		seeded := map[int]tuple{}
+		asked := map[vbKey]bool{}
 		for i := range run.Evs {
 			e := &run.Evs[i]
+			if e.K == journal.KKVW && e.S == "seed" && e.Off != nil {
+				seeded[e.Vb] = offTuple(e.Off)
+			}
 			if e.K == journal.KSReq && e.Off != nil {
+				// resumed mid-snapshot: the four fields of the stored resume point travel together
+				if t, ok := seeded[e.Vb]; ok && e.U&0x80 != 0 && !asked[vbKey{e.M, e.Vb}] {
+					asked[vbKey{e.M, e.Vb}] = true
+					if got := offTuple(e.Off); got != t {
+						res.violate("C06", "R4-stored-offset-not-handed-out", e.N, fmt.Sprintf("vb=%d", e.Vb),
+							"member %d vb %d: the stored resume point is %s, the stream was requested with %s: the fields no longer stem from one event", e.M, e.Vb, t, got)
+					}
+					res.probe("resumed-from-stored-offset-judged")
+				}
 				if o := e.Off; o.Start > o.Seq || o.Seq > o.End {
 					res.violate("C06", "R5-seq-outside-its-snapshot", e.N, fmt.Sprintf("vb=%d", e.Vb),
 						"member %d vb %d: the stream request carries %s, which violates snapshotStart <= seqNo <= snapshotEnd", e.M, e.Vb, o)
